@@ -61,6 +61,7 @@ structure Eng where
   opened : Bool := false
   primary : Bool := false
   remoteHalt : Bool := false
+  remoteHaltTxid : Nat := 0        -- TXID of the position the remote halt lock was granted at
   remoteOK : Bool := true        -- would the primary accept a transaction forwarded now (halt lock held there)
   backup : Bool := false         -- a backup client is configured
   hwm : Nat := 0                 -- high-water mark acknowledged by the backup service (volatile)
